@@ -462,6 +462,7 @@ int main(int argc, char **argv)
 
     memset(&cfg, 0, sizeof(cfg));
     cfg.property = "C15";
+    cfg.sanitizer_is_oracle = 1; /* a crashing case child is a violation (memory fault in the library) */
     cfg.level = "model_checking";
     cfg.engine = "fork-dfs over live sessions with a temporal 'dead' monitor";
     cfg.rule = "case = (configuration, handshake prefix or connected state, victim role, killing event, continuation[s]); distinct by construction; "
